@@ -1,16 +1,16 @@
 (** C03 — binary32 theorem and the refutations of the fused operations. *)
 From Coq Require Import ZArith List Bool Lia ZifyBool.
 Import ListNotations.
-From VIsa Require Import IsaState IsaFloat ExecImpl ExecSpec ExecImplV ExecSpecV ExecImplF ExecSpecF ExecProofs ExecRows ExecVProofs ExecVRowsA ExecFRows ExecVThm.
+From VIsa Require Import IsaState IsaFloat ExecImpl ExecSpec ExecImplV ExecSpecV ExecImplF ExecSpecF ExecProofs ExecRows ExecVProofs ExecVRowsA ExecFRows ExecFCvt ExecVThm.
 Open Scope Z_scope.
 
 Definition frows (a : arch) : list (format * Z) :=
   match a with
-  | GCN3 => [(F_VOP2, 1); (F_VOP2, 2); (F_VOP2, 3); (F_VOP2, 5); (F_VOP2, 22); (F_VOP2, 24); (F_VOP1, 5); (F_VOP1, 6);
+  | GCN3 => [(F_VOP2, 1); (F_VOP2, 2); (F_VOP2, 3); (F_VOP2, 5); (F_VOP2, 22); (F_VOP2, 24); (F_VOP1, 5); (F_VOP1, 6); (F_VOP1, 7); (F_VOP1, 8); (F_VOP1, 28); (F_VOP1, 30);
              (F_VOPC, 65); (F_VOPC, 66); (F_VOPC, 67); (F_VOPC, 68); (F_VOPC, 69); (F_VOPC, 70);
              (F_VOPC, 73); (F_VOPC, 74); (F_VOPC, 75); (F_VOPC, 76); (F_VOPC, 77); (F_VOPC, 78);
              (F_VOP3A, 65); (F_VOP3A, 68); (F_VOP3A, 77); (F_VOP3A, 78); (F_VOP3A, 258); (F_VOP3A, 449)]
-  | CDNA3 => [(F_VOP2, 1); (F_VOP2, 2); (F_VOP2, 3); (F_VOP2, 5); (F_VOP1, 5); (F_VOP1, 6);
+  | CDNA3 => [(F_VOP2, 1); (F_VOP2, 2); (F_VOP2, 3); (F_VOP2, 5); (F_VOP1, 5); (F_VOP1, 6); (F_VOP1, 7); (F_VOP1, 8); (F_VOP1, 28); (F_VOP1, 30);
               (F_VOPC, 65); (F_VOPC, 66); (F_VOPC, 67); (F_VOPC, 68); (F_VOPC, 69); (F_VOPC, 70); (F_VOPC, 75); (F_VOPC, 78);
               (F_VOP3A, 65); (F_VOP3A, 67); (F_VOP3A, 68); (F_VOP3A, 70); (F_VOP3A, 78);
               (F_VOP3A, 258); (F_VOP3A, 261); (F_VOP3A, 449)]
@@ -56,6 +56,7 @@ Proof.
   - row_case (r_x_vop2_1 GCN3). - row_case (r_x_vop2_2 GCN3). - row_case (r_x_vop2_3 GCN3).
   - row_case (r_x_vop2_5 GCN3). - row_case r_g_vop2_22. - row_case r_g_vop2_24.
   - row_case (r_x_vop1_5 GCN3). - row_case (r_x_vop1_6 GCN3).
+  - row_case (r_x_vop1_7 GCN3). - row_case (r_x_vop1_8 GCN3). - row_case (r_x_vop1_28 GCN3). - row_case (r_x_vop1_30 GCN3).
   - row_case (r_g_vopc_f 65 ltac:(inl)). - row_case (r_g_vopc_f 66 ltac:(inl)). - row_case (r_g_vopc_f 67 ltac:(inl)).
   - row_case (r_g_vopc_f 68 ltac:(inl)). - row_case (r_g_vopc_f 69 ltac:(inl)). - row_case (r_g_vopc_f 70 ltac:(inl)).
   - row_case (r_g_vopc_f 73 ltac:(inl)). - row_case (r_g_vopc_f 74 ltac:(inl)). - row_case (r_g_vopc_f 75 ltac:(inl)).
@@ -64,6 +65,7 @@ Proof.
   - row_case (r_x_vop3a_258 GCN3). - row_case (r_x_vop3a_449 GCN3).
   - row_case (r_x_vop2_1 CDNA3). - row_case (r_x_vop2_2 CDNA3). - row_case (r_x_vop2_3 CDNA3).
   - row_case (r_x_vop2_5 CDNA3). - row_case (r_x_vop1_5 CDNA3). - row_case (r_x_vop1_6 CDNA3).
+  - row_case (r_x_vop1_7 CDNA3). - row_case (r_x_vop1_8 CDNA3). - row_case (r_x_vop1_28 CDNA3). - row_case (r_x_vop1_30 CDNA3).
   - row_case (r_c_vopc_f 65 ltac:(inl)). - row_case (r_c_vopc_f 66 ltac:(inl)). - row_case (r_c_vopc_f 67 ltac:(inl)).
   - row_case (r_c_vopc_f 68 ltac:(inl)). - row_case (r_c_vopc_f 69 ltac:(inl)). - row_case (r_c_vopc_f 70 ltac:(inl)).
   - row_case (r_c_vopc_f 75 ltac:(inl)). - row_case (r_c_vopc_f 78 ltac:(inl)).
